@@ -16,10 +16,13 @@ Check ==
   ELSE LET quant == "floops" \in DOMAIN e       \* outline supplied by the harness's abstraction function
            t == IF quant THEN [m |-> <<1, 0, 0, 1, 0, 0>>, mden |-> 1] ELSE [m |-> e.ctm.m, mden |-> e.ctm.mden]
            fl == IF quant THEN [loops |-> e.floops, eps |-> e.feps] ELSE FineLoops(e.ops, t, e.den)
-           cls == [k \in 1..(e.w * e.h) |-> ClassifyFill(fl, e.rule, (k - 1) % e.w, (k - 1) \div e.w)]
-           badin == {k \in 1..(e.w * e.h) : cls[k] = "in" /\ e.pix[k] # White}
-           badout == {k \in 1..(e.w * e.h) : cls[k] = "out" /\ e.pix[k] # Zero}
-           nin == Cardinality({k \in 1..(e.w * e.h) : cls[k] = "in"})
+           \* large surfaces: only the pixels of a sub-lattice are decided (the others stay unexamined)
+           stride == IF "stride" \in DOMAIN e THEN e.stride ELSE 1
+           PX == {k \in 1..(e.w * e.h) : ((k - 1) % e.w) % stride = 0 /\ ((k - 1) \div e.w) % stride = 0}
+           cls == [k \in PX |-> ClassifyFill(fl, e.rule, (k - 1) % e.w, (k - 1) \div e.w)]
+           badin == {k \in PX : cls[k] = "in" /\ e.pix[k] # White}
+           badout == {k \in PX : cls[k] = "out" /\ e.pix[k] # Zero}
+           nin == Cardinality({k \in PX : cls[k] = "in"})
        IN IF ~quant /\ ~DevExactFU(t, e.den) THEN PrintT(<<"SKIP", i, e.id>>)
           ELSE IF badin # {} \/ badout # {} THEN PrintT(<<"BAD", i, e.id, badin, badout>>)
           ELSE (nin = 0) \/ PrintT(<<"NT", i, nin>>)
